@@ -4,6 +4,7 @@ one thread in a scripted order, signals raised synchronously, sigaction queried 
 every line compared with `uvdriver signal`.  Monitors evaluate the property text on the
 implementation's log with their own bookkeeping (no knowledge of the tree, the pipe or the model)."""
 from vlib import *
+import time
 
 MANIFEST = {
  "text": "Lean 4 theorems over an executable model of signal.c (ordered tree of started handles, kernel disposition with "
@@ -64,6 +65,9 @@ def gen_case(rng, big=False, bias=None):
                 lines.append(f"{o[0]} h{o[1]}")
             else:
                 lines.append(f"{o[0]} h{o[1]}"); st[o[1]] = 0
+        elif r < 13 and len(sigs) > 1 and rng.chance(1, 5):
+            a = rng.choice(sigs); b = rng.choice([x for x in sigs if x != a])
+            lines.append(f"nestraise {a} {b}")
         elif r < 13:
             live = [s for s in st.values() if s]
             sig = rng.choice(live) if live and rng.chance(9, 10) else rng.choice(sigs)
@@ -296,6 +300,11 @@ class Mon:
                     x["caught"] = int(f[3])
             for t in l1.split()[2:]:
                 s, d = t.split("=")
+                if "!nomask" in d:
+                    self.v("handler-mask", f"libuv's handler for {s} is installed with an sa_mask that does not block every signal (a nested delivery on the same thread deadlocks on the signal lock) after `{after}`")
+                if "!norestart" in d:
+                    self.v("handler-flags", f"libuv's handler for {s} is installed without SA_RESTART after `{after}`")
+                d = d.split("!")[0]
                 if d != exp_disp(int(s)):
                     self.v("disposition", f"sigaction({s}) is {d}, expected {exp_disp(int(s))} (watchers {[(h, 'os' if H[h]['os'] else 'reg') for h in watchers(int(s))]}) after `{after}`")
         def on_signal_cb(L, h, sig, which=None):
@@ -448,6 +457,16 @@ class Mon:
             elif w[0] == "raise":
                 raise_sig(int(w[1]), next(it), None)
                 check_obs(cmd)
+            elif w[0] == "nestraise":
+                o = next(it); a, b = int(w[1]), int(w[2])
+                if o == "raise skipped-default":
+                    if exp_disp(a) != "dfl" and exp_disp(b) != "dfl":
+                        self.v("disposition", f"`{cmd}` skipped though both signals are watched")
+                elif o == "raised 2":
+                    raise_sig(a, "raised", None); raise_sig(b, "raised", None)   # B is taken right after A's handler returns
+                else:
+                    self.v("protocol", f"unexpected `{o}`")
+                check_obs(cmd)
             elif w[0] == "burst":
                 o = next(it); k = 0
                 while k < int(w[2]) and exp_disp(int(w[1])) != "dfl":
@@ -509,6 +528,19 @@ def monitor(prog, out, mt=False):
 
 
 # ----------------------------------------------------------------------------- running
+def driver_retry(ctx, text):
+    """the driver binary is shared with concurrently running builds: it can be missing for a moment while
+    lake relinks it; that is not a verdict about libuv"""
+    last = None
+    for attempt in range(8):
+        try:
+            return ctx.driver(["signal"], text)
+        except (OSError, RuntimeError) as e:
+            last = e
+            time.sleep(1.5 * (attempt + 1))
+    raise last
+
+
 def run_impl(ctx, exe, c):
     rc, out, err = ctx.run(exe, text="\n".join(c) + "\n", env=ENV, timeout=60)
     return rc, out.splitlines(), err
@@ -539,6 +571,8 @@ def run_case(ctx, exe, c, model=True, stats=None):
             if sig not in ("log-short", "protocol") and sig not in ctx.known:
                 ctx.violation(sig, f"C13: {text}", {"ops": c})
         kind = "crash-asan" if "AddressSanitizer" in err else "crash"
+        if rc in (-14, -999) and any(l.startswith("nestraise") for l in c):
+            kind = "signal-handler-deadlock"     # the watchdog fired inside a nested delivery
         ctx.violation(kind, f"signal harness exited {rc}: {err[-900:]}", {"ops": shrink(ctx, exe, c, kind)})
         return False
     viol = monitor(c, il)
@@ -557,7 +591,7 @@ def run_case(ctx, exe, c, model=True, stats=None):
     if not ok:
         return False
     if model:
-        ml = ctx.driver(["signal"], "\n".join(c) + "\n").splitlines()
+        ml = driver_retry(ctx, "\n".join(c) + "\n").splitlines()
         if il != ml:
             k = next((i for i in range(min(len(il), len(ml))) if il[i] != ml[i]), min(len(il), len(ml)))
             ctx.broken_correspondence("signal model vs src/unix/signal.c",
@@ -594,6 +628,8 @@ WITNESSES = [
     ["init 1 0", "start h0 10 0", "start h0 10 1", "raise 10", "run 0", "oneshot h0 10 0", "raise 10", "run 0", "raise 10", "run 0",
      "stop h0", "oneshot h0 12 1", "oneshot h0 12 0", "start h0 12 1", "raise 12", "run 0", "raise 12", "run 0"],
     ["init 1 0 0", "script 0 start:0:10:1 oneshot:1:10:1", "start h0 10 0", "oneshot h1 10 0", "raise 10", "raise 10", "run 0", "raise 10", "run 0"],
+    # a second watched signal arriving while the handler of the first is in its write(): both are caught
+    ["init 2 0 1 0", "start h0 10", "start h1 12", "oneshot h2 12", "nestraise 10 12", "run 0", "run 1", "nestraise 12 10", "run 1", "run 0"],
     # unreferenced handles: same deferral of close_cb, loop not kept alive by them
     ["init 1 0 0", "start h0 10", "start h1 10", "unref h0", "runraise 0 10 close:0", "run 0", "run 0"],
     ["init 1 0 0", "start h0 10", "start h1 10", "runraise 0 10 close:0 unref:0", "run 0", "run 0"],
